@@ -109,7 +109,9 @@ class QuietTail:
     def fate(self, key, length):
         w = self.world
         qf = w.scenario.get('quiet_from')
-        if qf is not None and w.now >= qf and key not in w.decisions.explicit:
+        if qf is not None and w.now >= qf:
+            # also for explicit fates: minimisation removes operations, which shifts datagram ordinals, and a recorded loss
+            # must not slide into the fault-free tail (a replay of an unminimised run has only base-latency deliveries there)
             return {'fate': 'deliver', 'lat': [BASE_LATENCY]}
         return self.orig(key, length)
 
